@@ -6,7 +6,7 @@
    of cmdWrapper.Run, every process of the tree); a disabled choice is a no-op. *)
 From Coq Require Import List Bool Arith.
 Import ListNotations.
-From GU Require Import C05.Model C05.Proofs C05.ProofsInv C05.ProofsTerm.
+From GU Require Import C05.Model C05.Proofs C05.ProofsInv C05.ProofsStart C05.ProofsTerm.
 
 (* OS rule used by every path: a kill of the process group leaves nothing of the group alive, for EVERY process table
    (any forest, any flags: TERM-ignoring, pipe holders, exited parents), and nothing of the group comes back afterwards,
@@ -22,23 +22,19 @@ Theorem cancel_bounded : forall sm km t sched, steps_taken (init sm km t) sched 
 Proof. exact cancel_bounded_l. Qed.
 Print Assumptions cancel_bounded.
 
-(* FULL STATEMENT (DESIGN: cancel_kills_group): for every tree, every start mode in {Execute, Start, supervisor}, every
-   stop mode in {context cancel, deadline, Cancel, Stop, Restart} with [supported sm km], every schedule: once nothing can
-   move and the stop request has been issued, no process of the group is alive, the calls have returned, IsOn is false.
-   PROVED HERE for start mode Execute / supervisor with stop through the context (cancel, deadline, Cancel()) — the family
-   of defect D17.  Missing from the proof (covered by the correspondence runs and by cancel_bounded only): start mode
-   Start (all five stop modes), i.e. the interplay monitor goroutine / Stop / scheduled kill; the supervisor's restart
-   loop is modelled as one Execute.  Premise [no_outside_holder]: no process that left the group holds the output pipes
-   (without it the statement is false: outside_holder_refuted). *)
-Theorem cancel_kills_group_partial : forall sm km t sched,
-  sm <> SStart -> (km = KCtx \/ km = KDeadline \/ km = KCancel) -> no_outside_holder t = true ->
+(* cancel_kills_group (DESIGN): for EVERY tree in which no process that left the group holds the output pipes, every start
+   mode in {Execute, Start, supervisor}, every stop mode in {context cancel, deadline, Cancel(), Stop(), Restart()} — with
+   the one documented exception  Stop()/Restart() on a subprocess started with Execute()  ([supported], refuted just
+   below) — and EVERY schedule: once nothing can move and the stop request has been issued, no process of the group is
+   alive, Execute()/Stop()/Restart() have returned and IsOn() is false.  Together with cancel_bounded: that state is
+   reached after at most 38 + 2*|tree| steps, whatever the interleaving.
+   (The supervisor's restart loop is modelled as one Execute; Restart()'s second half, the new Start, is not modelled.) *)
+Theorem cancel_kills_group : forall sm km t sched,
+  supported sm km = true -> no_outside_holder t = true ->
   let s := run (init sm km t) sched in
   terminal s -> fired s = true -> good s.
-Proof.
-  intros sm km t sched Hs Hk Hok. apply cancel_kills_group_l; auto.
-  destruct Hk as [-> | [-> | ->]]; reflexivity.
-Qed.
-Print Assumptions cancel_kills_group_partial.
+Proof. exact cancel_kills_group_full_l. Qed.
+Print Assumptions cancel_kills_group.
 
 (* The full statement is FALSE for Stop()/Restart() on a subprocess started with Execute() (known finding): a reachable
    state where nothing can move, the request has been issued, the tree is alive, no call has returned, IsOn is true. *)
@@ -70,6 +66,11 @@ Theorem run_waits_for_pipes : forall s s', mainpc s = M3 -> step s LMain = Some 
 Proof. exact run_waits_for_pipes_l. Qed.
 Print Assumptions run_waits_for_pipes.
 
+(* The exception is exactly: *)
+Example supported_table : map (fun sm => map (supported sm) [KCtx; KDeadline; KCancel; KStop; KRestart]) [SExecute; SStart; SSupervisor]
+  = [[true; true; true; false; false]; [true; true; true; true; true]; [true; true; true; false; false]].
+Proof. reflexivity. Qed.
+
 (* Non-vacuity: for the tree of D17 (sh -c "sleep & sleep & wait") under Execute + context cancel the canonical schedule
    does reach a terminal state with the request issued — and it is good, within the bound. *)
 Example c05_nonvacuous :
@@ -79,4 +80,13 @@ Example c05_nonvacuous :
 Proof.
   cbv zeta. repeat split; try (vm_compute; reflexivity).
   intros l; destruct l; try (vm_compute; reflexivity). destruct i as [|[|[|[|i]]]]; vm_compute; reflexivity.
+Qed.
+
+Example c05_nonvacuous_start_stop :
+  let t := T false true false true [leaf_tree; T true false false false [leaf_tree]] in   (* parent exits first; a TERM-ignoring, redirected child *)
+  let s := run (init SStart KStop t) (canonical t 4) in
+  no_outside_holder t = true /\ terminal s /\ fired s = true /\ survivors (tbl s) = 0 /\ call_returned s = true /\ is_on s = false.
+Proof.
+  cbv zeta. repeat split; try (vm_compute; reflexivity).
+  intros l; destruct l; try (vm_compute; reflexivity). destruct i as [|[|[|[|[|i]]]]]; vm_compute; reflexivity.
 Qed.
